@@ -295,6 +295,10 @@ func init() {
 			k(st, e.havocResults(st, fn.Signature, "closer"))
 		}
 	}
+	libSpecs["(*polycry.pt/poly-go/sync.Closer).Close"] = func(e *Engine, st *State, fn *ssa.Function, args []Val, pos token.Pos, k Kont) {
+		k(st, e.havocResults(st, fn.Signature, "closer"))
+	}
+	libSpecs["polycry.pt/poly-go/context.IsContextError"] = pureUF("ctx_IsContextError")
 	// wait groups: no concurrency semantics
 	for _, n := range []string{"(*polycry.pt/poly-go/sync.WaitGroup).Wait", "(*polycry.pt/poly-go/sync.WaitGroup).Add", "(*polycry.pt/poly-go/sync.WaitGroup).Done",
 		"(*polycry.pt/poly-go/sync.WaitGroup).WaitCtx", "(*sync.WaitGroup).Wait", "(*sync.WaitGroup).Add", "(*sync.WaitGroup).Done"} {
